@@ -3,7 +3,7 @@ import itertools
 import gens
 import impl
 import engine
-from docs import to_text, ro_delete, story_append, ready_to_air
+from docs import to_text, ro_delete, story_append, ready_to_air, ro_replace
 from checks.base import corpus_cases
 from checks.c08 import run_sub, smoke
 
@@ -23,7 +23,12 @@ def collections(tier):
             mid += 1
         for k in range(n_other):
             rid = 'RO2' if (two_ids and k == 0 and n_rc < 2) else 'RO1'
-            d = story_append(mid, [gens.new_story('N%d' % k)], ro_id=rid) if k % 2 == 0 else ready_to_air(mid, ro_id=rid)
+            if k % 3 == 0:
+                d = ro_replace(mid, [gens.new_story('R%d' % k)], ro_id=rid)
+            elif k % 3 == 1:
+                d = story_append(mid, [gens.new_story('N%d' % k)], ro_id=rid)
+            else:
+                d = ready_to_air(mid, ro_id=rid)
             docs.append(to_text(d))
             mid += 1
         for k in range(n_rd):
@@ -38,7 +43,7 @@ def collections(tier):
 
 class Check:
     pid = 'C11'
-    rule = ('every multiset with 0..2 [0..3] roCreates x 0..2 roDeletes x 0..2 other messages x {one, two running-order '
+    rule = ('every multiset with 0..2 [0..3] roCreates x 0..2 roDeletes x 0..2 other messages (roReplace, roStoryAppend, roReadyToAir) x {one, two running-order '
             'IDs} x allow_incomplete in {False, True}, each built through MosCollection.from_strings in a fresh interpreter '
             'with default flags and with -O. distinct by (counts, mixed ids, allow_incomplete, flags, outcome)')
 
